@@ -6,7 +6,14 @@ ALLOWED_AXIOMS = {
     "propositional_extensionality", "constructive_indefinite_description",
 }
 
+INBOUND_ASSUMPTIONS = ["klauspost inflater is a parameter of the model: instantiated per case by the results of Go's compress/flate on the same (dictionary, input) pairs",
+                       "unicode/utf8.Valid verdicts shipped with the case (Model/Utf8 is validated against it under C16)",
+                       "bufio.Reader/io.ReadFull deliver the transport's bytes in order (T1); net/http parsing is not modelled"]
+
 REGISTRY = {
+    "C03": {"checks": [("C03", "CheckC03", "check_c03")], "assumptions": INBOUND_ASSUMPTIONS},
+    "C04": {"checks": [("C03", "CheckC03", "check_c03")], "assumptions": INBOUND_ASSUMPTIONS + ["the Go runtime, bufio, net/http and klauspost's inflater are not modelled: for them the no-panic / no-hang / allocation clauses are watchdog observations (testing)"]},
+    "C13": {"checks": [("C03", "CheckC03", "check_c03")], "assumptions": INBOUND_ASSUMPTIONS},
     "C05": {
         "checks": [("C05w", "CheckC05", "check_c05w"), ("C05bc", "CheckC05", "check_c05bc"),
                    ("C05file", "CheckC05", "check_c05file"), ("C05filez", "CheckC05", "check_c05filez")],
